@@ -319,7 +319,10 @@ PROPS = {
         design="3/C16"),
     "C17": dict(
         engine="histsim", profile="C17", builds=["dbg", "dbg16", "rwdi"], level="fault_enumeration",
-        quick_s=45, thorough_s=600,
+        # (joint memory is the one user of an explicit fence size - none - inside a fence build: compsim's joint mode)
+        parts=[dict(engine="histsim", profile="C17", builds=["dbg", "dbg16", "rwdi"], weight=3.0),
+               dict(engine="compsim", profile="C11", builds=["dbg"], weight=0.5)],
+        quick_s=50, thorough_s=600,
         technique="deterministic simulation with fault injection: the fault is a corrupting write into a fence "
                   "at a drawn instant of a history; complete side x offset x value tables for six node sizes; "
                   "fill patterns as invariants of all histories",
